@@ -1333,6 +1333,44 @@ def r24_name_tail_expr(toks, counts):
     return new
 
 
+def r34_vec_sort(toks, counts):
+    """statement `X.sort();` (X an identifier) -> `vec_sort(&mut X);`: `[T]::sort` leaves a permutation in ascending order (TRUSTED stand-in)"""
+    text = rtok.untok(toks)
+    pat = re.compile(r'(?m)^(\s*)([A-Za-z_][A-Za-z0-9_]*)\.sort\(\);')
+    text2, k = pat.subn(lambda m: '%svec_sort(&mut %s);' % (m.group(1), m.group(2)), text)
+    if k:
+        counts['R34'] = counts.get('R34', 0) + k
+        return rtok.tokenize(text2)
+    return toks
+
+
+def r35_bsearch_first(toks, counts):
+    """`X.binary_search_by_key(&K, |t| t.0)` (the key closure is the projection to the first component) -> `bsearch_by_first(&X, &K)`:
+    binary search of a list sorted by its first components (TRUSTED stand-in of the std function for this key closure)"""
+    text = rtok.untok(toks)
+    pat = re.compile(r'([A-Za-z_][A-Za-z0-9_]*)\.binary_search_by_key\(\s*&([A-Za-z_][A-Za-z0-9_]*)\s*,\s*\|\s*([a-z_][A-Za-z0-9_]*)\s*\|\s*\3\.0\s*\)')
+    text2, k = pat.subn(lambda m: 'bsearch_by_first(&%s, &%s)' % (m.group(1), m.group(2)), text)
+    if k:
+        counts['R35'] = counts.get('R35', 0) + k
+        return rtok.tokenize(text2)
+    return toks
+
+
+def r36_hashset_for(toks, counts, names):
+    """`for P in NAME {` where NAME (given in the region option R36=NAME) is a std HashSet consumed by value ->
+    `for P in hashset_into_vec(NAME) {`: every element once, in an unspecified order (TRUSTED stand-in of HashSet::into_iter)"""
+    text = rtok.untok(toks)
+    k_all = 0
+    for nm in names:
+        pat = re.compile(r'(\bfor\s+[^{};]*?\sin\s+)%s(\s*\{)' % re.escape(nm))
+        text, k = pat.subn(lambda m: '%shashset_into_vec(%s)%s' % (m.group(1), nm, m.group(2)), text)
+        k_all += k
+    if k_all:
+        counts['R36'] = counts.get('R36', 0) + k_all
+        return rtok.tokenize(text)
+    return toks
+
+
 def r25_vec_extend(toks, counts):
     """statement `X.extend(E);` -> `vec_extend(&mut X, E);` for a simple path X (a Vec extended by a Vec):
     `Extend::extend` with a Vec argument appends its elements in order"""
@@ -2944,6 +2982,12 @@ def extract_region(src_text, path, opts=None):
             if 'R29' not in opts.get('skip', ()):
                 item = r29_inline_combinators(item, counts, extra=(('map',) if 'R29map' in opts.get('rules', ()) else ()) + (('result',) if 'R29res' in opts.get('rules', ()) else ()))
             item = r11_closure_pattern_params(item, counts)
+            if 'R36' in opts.get('rules', ()):
+                item = r36_hashset_for(item, counts, opts.get('r36_names', []))
+            if 'R34' in opts.get('rules', ()):
+                item = r34_vec_sort(item, counts)
+            if 'R35' in opts.get('rules', ()):
+                item = r35_bsearch_first(item, counts)
             if 'R28' in opts.get('rules', ()):
                 item = r28_closure_signatures(item, counts, opts.get('r28_sigs', []))
             item = r21_map_err_anyhow(item, counts)
